@@ -101,6 +101,20 @@ func crashMain(args []string) {
 		}
 	kill:
 		_ = cmd.Process.Signal(syscall.SIGKILL)
+		// the child kept running until the signal landed: whatever it still wrote (every line is flushed) is in the
+		// pipe and says how far it really got - an operation announced or even acknowledged after the parent decided
+		// to kill
+		for sc.Scan() {
+			ln := sc.Text()
+			switch {
+			case strings.HasPrefix(ln, "B "):
+				inflight = strings.TrimPrefix(ln, "B ")
+				stats["kill:child-ran-ahead"]++
+			case strings.HasPrefix(ln, "A "):
+				acked = append(acked, strings.TrimPrefix(ln, "A "))
+				inflight = ""
+			}
+		}
 		_ = cmd.Wait()
 		if inflight != "" {
 			stats["kill:inside-operation"]++
